@@ -851,11 +851,16 @@ def eval_def(info, env):
 
 # ------------------------------------------------------------------ functions on scalars
 
+_TRIAL_LIMIT = 200000
+
+
 def _factor_squarefree(n):
-    """n = s^2 * f with f squarefree; returns (s, [primes of f])"""
+    """n = s^2 * f with f squarefree; returns (s, [primes of f]), or None when a cofactor beyond the trial-division limit is left
+    that is not a perfect square (constants read from floats: the caller falls back to a defined square-root symbol)"""
+    import math
     s, primes = 1, []
     p = 2
-    while p * p <= n:
+    while p * p <= n and p <= _TRIAL_LIMIT:
         cnt = 0
         while n % p == 0:
             n //= p
@@ -865,7 +870,14 @@ def _factor_squarefree(n):
             primes.append(p)
         p += 1
     if n > 1:
-        primes.append(n)
+        if p * p > n:
+            primes.append(n)          # n is prime
+        else:
+            r = math.isqrt(n)
+            if r * r == n:
+                s *= r
+            else:
+                return None
     return s, primes
 
 
@@ -876,7 +888,11 @@ def sqrt_rational(q):
     if q == 0:
         return Sym({})
     n = q.numerator * q.denominator      # sqrt(a/b) = sqrt(ab)/b
-    s, primes = _factor_squarefree(n)
+    fs = _factor_squarefree(n)
+    if fs is None:
+        x = Sym.const(q)
+        return Sym.of_id(T.defined("sqrt", x.key(), x))
+    s, primes = fs
     out = Sym.const(Fraction(s, q.denominator))
     for p in primes:
         out = out * Sym.of_id(T.root(p))
@@ -1051,7 +1067,11 @@ def compare(op, x):
             if x.imag.is_zero():
                 x = x.real
             else:
-                raise Unsupported("ordering of complex constants")
+                # numpy orders complex numbers lexicographically (real part first, then imaginary part)
+                sr, si = _const_field_sign(x.real), _const_field_sign(x.imag)
+                if sr != 0:
+                    return sr < 0
+                return si < 0 if op == "<" else si <= 0
         s = _const_field_sign(x)
         return s < 0 if op == "<" else s <= 0
     if op != "==" and x.has_i():
